@@ -44,6 +44,7 @@ package connlimit
 //@   ensures {C20} writes_nothing_itself: calls(w.WriteHeader) == 0 && calls(w.Write) == 0
 //@   ensures {C20} refusal_is_the_handlers: calls(cl.errHandler.ServeHTTP) == 1 ==> callarg(cl.errHandler.ServeHTTP, 0, 0) == w && callarg(cl.errHandler.ServeHTTP, 0, 1) == r
 //@   at_call cl.next.ServeHTTP {C20} same_writer_and_request: arg0 == w && arg1 == r
+//@   at_call acquire {C04,C14} counted_under_the_extracted_source: arg1 == callres(cl.extract.Extract, 0, 0) && arg2 == callres(cl.extract.Extract, 0, 1)
 //@   at_call cl.next.ServeHTTP slot_held: cl.held[callarg(acquire, 0, 1)] >= old(cl.held[callarg(acquire, 0, 1)]) + 1
 //@   at_call cl.errHandler.ServeHTTP nothing_held: forall t string :: cl.held[t] == old(cl.held[t])
 
